@@ -208,6 +208,21 @@ def Variants.allUnit : Variants → Bool
   | .cons _ .unit r => r.allUnit
   | .cons _ _ _ => false
 
+/-- a type that carries no data: traced as Null (`()`, unit structs, Option / newtype wrappers of those) -/
+def isNullTy : Ty → Bool
+  | .unit | .unitStruct _ => true
+  | .option t | .newtype _ t => isNullTy t
+  | _ => false
+
+/-- an enum "without data" as the tracer sees it (`UnionTracer::is_without_data`): every variant is a unit variant or
+a newtype variant around a data-less type (its tracer is a Null primitive).  Model repair: the mapping used `allUnit`
+(unit variants only), but `enum E { A, B(()) }` is traced to a Dictionary under `enums_without_data_as_strings` too. -/
+def Variants.withoutData : Variants → Bool
+  | .nil => true
+  | .cons _ .unit r => r.withoutData
+  | .cons _ (.newtype t) r => isNullTy t && r.withoutData
+  | .cons _ _ _ => false
+
 mutual
 /-- data type, nullability and metadata of the field a type is traced to -/
 def mappingDT (o : TraceOpts) : Ty → DataType × Bool × Metadata
@@ -226,7 +241,7 @@ def mappingDT (o : TraceOpts) : Ty → DataType × Bool × Metadata
   | .struct _ fs => (.struct (mappingFields o fs), false, [])
   | .newtype _ t => mappingDT o t
   | .enum _ vars =>
-    if vars.allUnit && o.enumsWithoutDataAsStrings then (.dictionary .uint32 (strDT o), false, [])
+    if vars.withoutData && o.enumsWithoutDataAsStrings then (.dictionary .uint32 (strDT o), false, [])
     else (.union (mappingVariants o 0 vars) .dense, false, [])
   | .map k v =>
     let (kdt, knb, kmd) := mappingDT o k
@@ -315,6 +330,63 @@ def lvFields : TFields → Vals → LFields
 def lvEntries (k v : Ty) : VEntries → LEntries
   | .nil => .nil
   | .cons a b rest => .cons (lv k a) (lv v b) (lvEntries k v rest)
+end
+
+/-! ### logical values, option dependent (`enums_without_data_as_strings`) -/
+
+mutual
+/-- the logical value the column holds for a typed value under the tracing options `o`: as `lv`, except that an enum
+without data is stored as a STRING column (Dictionary(UInt32, string type)) under `enums_without_data_as_strings`, where
+the logical value of a variant is its NAME.  Additive: `lv` (the Union form) is unchanged; `lvO o = lv` wherever no such
+enum occurs. -/
+def lvO (o : TraceOpts) : Ty → Val → LVal
+  | .prim .bool, .bool b => .bool b
+  | .prim (.int _), .int v => .int v
+  | .prim .f32, .f32 b => .float b
+  | .prim .f64, .f64 b => .float b
+  | .prim .char, .char c => .int c
+  | .prim .str, .str s => .str s.toUTF8.toList
+  | .prim .bytes, .bytes b => .bin b
+  | .option t, .some v => lvO o t v
+  | .vec t, .vec vs => .list (lvOAll o t vs)
+  | .tuple ts, .tuple vs => .struct (lvOPos o 0 ts vs)
+  | .tupleStruct _ ts, .tuple vs => .struct (lvOPos o 0 ts vs)
+  | .struct _ fs, .struct vs => .struct (lvOFields o fs vs)
+  | .newtype _ t, .newtype v => lvO o t v
+  | .enum _ vars, .variant i payload =>
+    if vars.withoutData && o.enumsWithoutDataAsStrings then
+      match vars.get? i with
+      | some (vn, _) => .str vn.toUTF8.toList
+      | none => .null
+    else
+      match vars.get? i with
+      | some (_, .unit) => .union i .null
+      | some (_, .newtype t) => lvOSingle o i t payload
+      | some (_, .tuple ts) => .union i (.struct (lvOPos o 0 ts payload))
+      | some (_, .struct fs) => .union i (.struct (lvOFields o fs payload))
+      | none => .null
+  | .map k v, .map es => .map (lvOEntries o k v es)
+  | _, _ => .null          -- `()`, unit structs, `None`
+
+def lvOSingle (o : TraceOpts) (i : Nat) (t : Ty) : Vals → LVal
+  | .cons v .nil => .union i (lvO o t v)
+  | _ => .null
+
+def lvOAll (o : TraceOpts) (t : Ty) : Vals → LVals
+  | .nil => .nil
+  | .cons v rest => .cons (lvO o t v) (lvOAll o t rest)
+
+def lvOPos (o : TraceOpts) : Nat → Tys → Vals → LFields
+  | i, .cons t ts, .cons v rest => .cons (posName i) (lvO o t v) (lvOPos o (i + 1) ts rest)
+  | _, _, _ => .nil
+
+def lvOFields (o : TraceOpts) : TFields → Vals → LFields
+  | .cons n _ t fs, .cons v rest => .cons n (lvO o t v) (lvOFields o fs rest)
+  | _, _ => .nil
+
+def lvOEntries (o : TraceOpts) (k v : Ty) : VEntries → LEntries
+  | .nil => .nil
+  | .cons a b rest => .cons (lvO o k a) (lvO o v b) (lvOEntries o k v rest)
 end
 
 /-! ### well-typed values -/
